@@ -105,7 +105,15 @@ def rule_numnorm(prog: Program, modules: Optional[Set[str]] = None) -> List[Inst
             derived: Dict[str, List[str]] = {}
             for n in walk_own(fi.node):
                 if isinstance(n, ast.Assign) and len(n.targets) == 1 and isinstance(n.targets[0], ast.Name) and isinstance(n.value, ast.BinOp):
-                    raw = _raw_names(n.value, ints, rd, n)
+                    # integer arithmetic only: every leaf is an int parameter or an int constant, operators + - * //
+                    # (a product with a float local is a float, its negation cannot wrap)
+                    leaves_ok = all(
+                        (isinstance(x, ast.Name) and x.id in ints)
+                        or (isinstance(x, ast.Constant) and isinstance(x.value, int))
+                        or isinstance(x, (ast.BinOp, ast.BoolOp, ast.Add, ast.Sub, ast.Mult, ast.FloorDiv, ast.Or, ast.And, ast.Load, ast.UnaryOp, ast.USub, ast.UAdd))
+                        for x in ast.walk(n.value)
+                    )
+                    raw = _raw_names(n.value, ints, rd, n) if leaves_ok else []
                     if raw:
                         derived[n.targets[0].id] = raw
             for n in walk_own(fi.node):
